@@ -644,7 +644,7 @@ def main(chk):
         "Coq side: matcher strings (padding shapes x sizes x 15 followers, long-token shapes incl. unterminated/escaped, seeded fragment "
         "strings) and lexer runs (token sequences x schedules). non-trivial: padding/token larger than one byte, resp. a string on "
         "which some pattern matches, resp. a stream of more than one token; distinct by the full case key." % (len(BASES), nrepo, len(CHUNKS)))
-    chk.cov["rule"] += " Also: a multi-byte character at every offset around every power of two from 64 bytes to 64 KiB; names / str keys of 33..100 characters that differ in one character, at every position (evaluated: variables, properties, map keys)."
+    chk.cov["rule"] += " Also: a multi-byte character at every offset around every power of two from 64 bytes to 64 KiB; names / str keys of 33..5000 characters that differ in one character (every position up to 100 characters, five positions above), evaluated as variables, properties, map keys; names and strs of 1023..5000 characters listed by keys, iterated, symbols, repr / eval round trip; a call wrapped over several lines with any indentation does what the one-line form does."
     chk.cov["trusted_base"] += [
         "hand-written matchers coq/Lex/LayoutTok.v for RET, MULTILINE_ADD_CHAIN, MULTILINE_MAIN_CHAIN, BACKQUOTE_STR, HEAD_STR_PIECE, "
         "DOUBLEQUOTE_STR, IDENT, PRIVATE_IDENT, tied by vm_compute comparison with Go's regexp on the pattern text read from the "
